@@ -426,7 +426,9 @@ def pipe_rule(ctx, r):
         if not (pipe_bbs & region):
             r.bad(label, "the Err arm of %s at %s never tests for BrokenPipe" % (c.path, c.loc), fn=f, loc=c.loc)
             continue
-        esc = C.all_paths_pass(f, [c.target], pipe_bbs, sinks)
+        # (within this iteration: going round the loop is another write)
+        back = {(u, h_) for h_ in hdrs for u in range(len(f.blocks)) if h_ in f.succ(u)}
+        esc = C.all_paths_pass(f, [c.target], pipe_bbs, sinks, removed_edges=back)
         if esc:
             r.bad(label, "an error of %s can be reported without first testing for BrokenPipe" % c.path, fn=f, loc=c.loc)
             continue
@@ -450,8 +452,10 @@ def pipe_rule(ctx, r):
             # only the test on the error of this very call (err_message! carries pipe tests of its own for stderr)
             if bb not in region or not own_error(e, c):
                 continue
-            after = C.reach(f, [fe[1]], stop_blocks=hdrs)
-            if not calls_in(f, after, SET_ERRORED) and not err_returns(f, after):
+            # (an Err return behind a later write of its own — the final flush — reports that write's failure, not this one)
+            later = {c2.bb for c2 in f.calls_to("std::io::Write::flush") if c2.bb != c.bb}
+            after = C.reach(f, [fe[1]], stop_blocks=set(hdrs) | later)
+            if not calls_in(f, after, SET_ERRORED) and not err_returns(f, after - later):
                 silent.append(bb)
         if silent:
             r.bad(label + "|other", "an error of %s that is not BrokenPipe is dropped without a diagnostic (neither the error flag nor "
@@ -474,7 +478,7 @@ def pipe_rule(ctx, r):
         a = Sccp(f, call_model=model).run([(0, {})])
         vals = set()
         for bb, te, fe, e in sw:
-            if bb not in a.exec_blocks:
+            if bb not in a.exec_blocks or not own_error(e, c):
                 continue
             b = Sccp(f, call_model=model, stop_blocks=loop_headers(f)).run([(te[1], dict(a.env_in.get(bb, {})))])
             for v_ in b.ret_values.values():
@@ -733,6 +737,45 @@ def config_rule(ctx, r):
         r.bad("run|parse-error", "anchor-missing: rg::run does not match on ParseResult", fn=run)
 
 
+
+def flush_rule(ctx, r):
+    """stdout is block buffered when it is not a terminal. The serial drivers own the writer; dropping it flushes and throws
+    the error away, so a run whose whole output fits the buffer ends with status 0 (or 1) on a full disk or a closed pipe.
+    Necessary: every Ok answer of rg::search / rg::files lies behind a flush whose Result is not dropped; the printing thread of
+    files_parallel answers with the flush."""
+    facts = ctx.facts
+    FL = "std::io::Write::flush"
+    for name in ("rg::search", "rg::files"):
+        f = facts.fn(name)
+        fl = f.calls_to(FL)
+        oks = [bb for bb, j, st in f.stmts() if st["k"] == "assign" and st["place"]["l"] == 0 and not st["place"]["p"] and
+               st["rv"]["k"] == "agg" and st["rv"].get("variant") == "Ok"]
+        key = "flush|" + name.split("::")[-1]
+        if not fl:
+            r.bad(key, "%s returns without flushing the writer it owns: output that is still in the block buffer is written when "
+                  "the writer is dropped and an error (ENOSPC, EPIPE) is thrown away — `rg foo small > /dev/full` exits 0 without a "
+                  "word" % name, fn=f, construct="flush")
+            continue
+        left = C.all_paths_pass(f, [0], [c.bb for c in fl], oks)
+        v, d = classify_result(f, fl[0])
+        if left:
+            r.bad(key, "%s can answer Ok without having flushed its writer" % name, fn=f, loc=fl[0].loc, construct="flush")
+        elif v in ("dropped", "swallowed"):
+            r.bad(key, "%s flushes but ignores the result (%s %s)" % (name, v, d), fn=f, loc=fl[0].loc, construct="flush")
+        else:
+            r.ok(key, "every Ok answer is behind flush(); its Result is %s" % v, fn=f)
+    th = [g for g in facts.closures_of("rg::files_parallel") if g.calls_to("grep_printer::path::PathPrinter::write")]
+    if not th:
+        r.bad("flush|files_parallel", "anchor-missing: the printing thread of files_parallel", fn=facts.fn("rg::files_parallel"))
+    else:
+        g = th[0]
+        eb = ExprBuilder(g)
+        if g.calls_to(FL) and mentions_call(eb.local(0), FL):
+            r.ok("flush|files_parallel", "the printing thread answers with flush()", fn=g)
+        else:
+            r.bad("flush|files_parallel", "the printing thread of files_parallel ends without flushing the writer it owns", fn=g,
+                  construct="flush")
+
 def run(ctx):
     with ctx.rule("C15.STATUS", "exit-code truth table of rg::run (8 rows, exhaustive) and rg::main's Err mapping",
                   floor=10, exhaustive=True, kind="TRUTH") as r:
@@ -741,6 +784,9 @@ def run(ctx):
         matched_rule(ctx, r)
     with ctx.rule("C15.PIPE", "every handled stdout-write error tests BrokenPipe first and stops quietly; other errors are reported", floor=12, kind="GUARD") as r:
         pipe_rule(ctx, r)
+    with ctx.rule("C15.FLUSH", "what is still buffered when a driver is done is written out and a failure to do so is answered like any "
+                  "other failed write", floor=3, kind="PASS/USED") as r:
+        flush_rule(ctx, r)
     with ctx.rule("C15.CONTINUE", "per-file errors set the error flag and continue", floor=3, kind="A3/MAYCALL") as r:
         continue_rule(ctx, r)
     with ctx.rule("C15.FLAG", "ERRORED ownership; process::exit and stderr confined to the macros; err_message! order",
